@@ -242,7 +242,7 @@ class Builtins:
                         if not isinstance(s, SSet):
                             raise Unsupported(f"union with {s!r}")
                         t = sym.union(t, s.term)
-                    return SSet(t)
+                    return self.fresh_set(t)
                 return Builtin("set.union", un)
         if isinstance(o, str) and attr == "join":
             def join(a, k):
@@ -254,6 +254,29 @@ class Builtins:
                     parts.append(it)
                 return str_concat(*parts) if parts else ""
             return Builtin("str.join", join)
+        if isinstance(o, str) and attr == "format":
+            def fmt(a, k):
+                import string
+                parts = []
+                auto = 0
+                for lit, field, spec, conv in string.Formatter().parse(o):
+                    parts.append(lit)
+                    if field is None:
+                        continue
+                    if spec or conv not in (None, "s", "r"):
+                        raise Unsupported("format spec / conversion in str.format")
+                    if field == "":
+                        val = a[auto]
+                        auto += 1
+                    elif field.isdigit():
+                        val = a[int(field)]
+                    elif field in k:
+                        val = k[field]
+                    else:
+                        raise Unsupported(f"str.format field {field!r}")
+                    parts.append(self.to_str(val))
+                return str_concat(*parts)
+            return Builtin("str.format", fmt)
         if is_num(o) and attr == "is_integer":
             def is_integer(a, k):
                 if isinstance(o, float):
@@ -652,6 +675,11 @@ class Builtins:
             return [SName(e)]
         raise Unsupported(f"unpack of {v!r}")
 
+    def fresh_set(self, term):
+        r = SSet(term)
+        self.I.heap_log.append(("alloc-set", id(r), None, self.I.where()))
+        return r
+
     def make_set(self, elts):
         t = sym.empty_set()
         for e in elts:
@@ -660,7 +688,7 @@ class Builtins:
                 # a hashable non-string element (ill-typed variable name): opaque element
                 kt = self.path.fresh("nonname-element", sym.Name)
             t = z3.Store(t, kt, z3.BoolVal(True))
-        return SSet(t)
+        return self.fresh_set(t)
 
     # ------------------------------------------------------------------ builtin functions
     def b_isinstance(self, a, k):
@@ -814,7 +842,7 @@ class Builtins:
         if a:
             items = self.iterate(a[0])
             return self.make_set(items)
-        return SSet(sym.empty_set())
+        return self.fresh_set(sym.empty_set())
 
     def b_str(self, a, k):
         return self.to_str(a[0])
